@@ -12,8 +12,8 @@ cargo nextest run --workspace --no-fail-fast --tool-config-file pb:/w/lib/nextes
 mv /tmp/demo_hold_$ID/verif_demo.rs tests/
 echo "== demo with change (expect FAILED)"
 cargo test --offline --test verif_demo 2>&1 | grep -E "^test result|error\[" | head -3
-git stash -q -- src
+git apply -R /tmp/seed_$ID.diff
 echo "== demo without change (expect ok)"
 cargo test --offline --test verif_demo 2>&1 | grep -E "^test result|error\[" | head -3
-git stash pop -q
+git apply /tmp/seed_$ID.diff
 echo "== done"
